@@ -87,4 +87,30 @@ PROPS = {
             sub("db_polygon_selection", "c20_polygon", 5000, 130000),
             sub("convex_hull", "c20_polygon", 8000, 320000),
         ]),
+    "C12": dict(
+        level="exploration",
+        rule=("rapidcheck-generated Dbs (1-3D, n<=150, 1-3 variables, NA pattern, dyadic weights incl. 0/NA, selection) x VarioParam (1-4 directions with "
+              "npas, dpas, toldis, codir, tolang, bench, cylinder, breaks) x calculation type (variogram, madogram, rodogram, order-4, covariance, "
+              "non-centred covariance, covariogram, TRANS1/2, binormal); every lag's sw/hh/gg is compared with an O(n^2) loop over all pairs written in "
+              "the harness (sw exact, hh/gg 1e-10), pair separations kept off class/angular/bench/cylinder limits by construction; metamorphic: sample "
+              "permutation, exact translation, variable permutation, direction subset/reorder; grid algorithm vs pairwise oracle and vs general "
+              "algorithm (incl. rotated grids); db_vcloud/db_vmap vs the same pair list; non-trivial = >=2 lag slots receive pairs and the case has "
+              "several directions/variables, NA, a selection or an angular tolerance < 90 deg; distinct = hash of (ndim, n/8, nvar, calc, flags, "
+              "per-direction npas, quantised tolang/toldis/dpas)"),
+        assumptions=["lag k = round(d/dpas), accepted iff |d-k.dpas| <= toldis.dpas and k < npas; breaks: (b_k, b_k+1]",
+                     "direction accepted iff |cos(angle to codir)| >= cos(tolang); bench on the last coordinate; cylinder on the distance orthogonal to codir",
+                     "undefined weight = 1, pair weight = w1.w2; a lag without weight reports sw = 0 (hh/gg not examined)",
+                     "covariances stored on 2.npas+1 slots; centring with the weighted means over samples where both variables are defined",
+                     "vcloud ordinate = half squared difference; vmap counts ordered pairs",
+                     "by-sample variograms and COVARIOGRAM on points: metamorphic relations only (no documented pairwise definition); POISSON/GENERAL1-3 not covered",
+                     "db_vmap with FFT on a grid with a single-node axis is not generated (recorded crash finding)"],
+        subs=[
+            sub("vario_points", "c12_vario", 6000, 200000),
+            sub("vario_meta", "c12_vario", 4000, 100000),
+            sub("vario_grid", "c12_vario", 5000, 100000),
+            sub("bysample_dirs", "c12_vario", 2000, 20000),
+            sub("vcloud", "c12_vario", 6000, 100000),
+            sub("vmap_points", "c12_vario", 6000, 100000),
+            sub("vmap_grid", "c12_vario", 6000, 100000),
+        ]),
 }
